@@ -220,7 +220,7 @@ def run_random_session(seed, prof, frontend="wsgi", prefix="/", backend="tree", 
                     props = [("displayname", gen_value(rng))]
                 s.mk(c, k, how=rng.choice(["auto", "auto", "xmkcol"]), props=props)
             elif op == "delcoll":
-                s.delete_coll(c)
+                s.delete_coll(c, im=rng.choice(IM_CLASSES) if rng.random() < max(0.3, prof["cond"]) else None)
             elif op == "proppatch":
                 kind = s.events[-1]["audit"]["colls"].get(c, {}).get("kind", "calendar") if s.events else "calendar"
                 cand = ["displayname", "comment"]
@@ -228,9 +228,16 @@ def run_random_session(seed, prof, frontend="wsgi", prefix="/", backend="tree", 
                          "addressbook": ["abcolor", "abdesc"]}.get(kind, [])
                 if rng.random() < 0.1:
                     cand = ["calcolor", "abdesc", "order"]
+                curprops = s.events[-1]["audit"]["colls"].get(c, {}).get("props", {}) if s.events else {}
+
                 def value_for(p):
                     if rng.random() < 0.2:
                         return None
+                    # re-send the value the property currently has (clients do: a no-op rewrite)
+                    from .davdriver import NEUTRAL
+                    cur = curprops.get(NEUTRAL.get(p, p))
+                    if cur and rng.random() < 0.2:
+                        return s.V.value(cur)
                     if p in ("calcolor", "abcolor"):
                         # (some clients send the colour without the leading '#')
                         return rng.choice(COLORS) if rng.random() < 0.85 else rng.choice(["FF2968", "00ff00aa"])
@@ -239,6 +246,14 @@ def run_random_session(seed, prof, frontend="wsgi", prefix="/", backend="tree", 
                     if prof.get("propheavy"):
                         return gen_value(rng, allow_semicolon=backend in ("tree", "bare"))
                     return rng.choice(PROP_VALUES)
+                if s.explicit and rng.random() < 0.2:
+                    # a no-op rewrite: re-send a value this session stored earlier
+                    (ec, ep), ev_ = rng.choice(sorted(s.explicit.items()))
+                    ekind = s.events[-1]["audit"]["colls"].get(ec, {}).get("kind", "calendar")
+                    conc = {"color": "abcolor" if ekind == "addressbook" else "calcolor",
+                            "desc": "abdesc" if ekind == "addressbook" else "caldesc"}.get(ep, ep)
+                    s.propupdate(ec, [(conc, s.V.value(ev_))])
+                    continue
                 # one instruction, or (as calendar clients do) several in one request: in document
                 # order, sometimes with the same property twice
                 k = 1 if rng.random() < prof.get("propsingle", 0.6) else rng.randint(2, 4)
